@@ -29,3 +29,8 @@ chk("C02", "differential PBT over generated call graphs (recursion, by-ref, ABI 
     "Generated call graphs with self/mutual recursion, by-value/by-reference/ABI parameters, none/uint64/bytes/ABI results, locals live across re-entrant calls and calls nested in operands are compiled under both calling conventions and executed; outcomes must equal an evaluator with function-call semantics, and at every retsub the caller's stack below the call must be untouched with exactly the declared results on top. By-ref routines on a recursion cycle must be rejected.",
     "Trusts vf/avm callsub/proto/frame/retsub semantics (go-algorand), vf/recipe/eval.py call semantics; recursion depth bounded by a fuel parameter.",
     "DESIGN.md section 2 C02")
+
+chk("C03", "metamorphic PBT: one generated program compiled under every scratch_slots x frame_pointers x version setting, executed on the reference interpreter; outcomes and routine-exit stacks must coincide",
+    "No evaluator involved: the same generated program (optimiser-trigger biased) is compiled under all option settings and 4-5 versions and run on the same generated contexts; any difference in verdict, value, ordered effects or final user-numbered slots, or (for variants differing only in the slot optimisation) in what a routine leaves on the stack at any exit, is a violation.",
+    "Trusts vf/avm semantics. Caller-owned stack (spilled local slots) is excluded from the exit comparison because the optimiser legitimately changes the number of slots.",
+    "DESIGN.md section 2 C03")
